@@ -21,6 +21,9 @@ ops
 * `traj prog filters outer inner swi post ysel x`       → `final frames`
 * `nscan prog dc ysel init leaves length lengths`       → `ok carry ys` | error kind
   (`leaves`: `N` for `xs = None`, else the leaves as matrices separated by `/`; `length`: `N` or a number)
+* `nscano prog dc ysel nout init leaves length lengths`  → `ok carry ys` | error kind
+  (the general model `nestedCheckpointScanOut`: `nout` = number of array leaves of the body's output
+  pytree; with `nout = 0` — a body returning `None` as output — `ys` is rendered `N`)
 * `acc prog weights x`                                  → vector
 * `lanczos T c dt` (F only)                             → vector | error kind
 * `dfi solver E I filters T c dt s` (F only)            → vector
@@ -143,6 +146,22 @@ def runK (K : Type) [Sc K] : List String → Option String
     match leaves with
     | [xs] => pure (renderRes (nestedCheckpointScan body init xs length ls))
     | _ => pure (renderRes (nestedCheckpointScanTree (fun c r => body c r.flatten) init leaves length ls))
+  | ["nscano", p, dc, ysel, nout, init, leaves, length, ls] => do
+    let p ← pProg? (K := K) p; let dc ← dc.toNat?; let ysel ← parseNatVec? ysel
+    let nout ← nout.toNat?
+    let init ← pVec? (K := K) init
+    let leaves ← if leaves = "N" then some [] else (leaves.splitOn "/").mapM (pMat? (K := K))
+    let length ← if length = "N" then some none else length.toNat?.map some
+    let ls ← parseNatVec? ls
+    let body := fun (c : List K) (row : List K) =>
+      let z := runProg p (c ++ row)
+      (z.take dc, select ysel z)
+    let r := match leaves with
+      | [xs] => nestedCheckpointScanOut nout body init xs length ls
+      | _ => nestedCheckpointScanTreeOut nout (fun c r => body c r.flatten) init leaves length ls
+    match r with
+    | .error e => pure e.toString
+    | .ok (c, ys) => pure (if nout = 0 then s!"ok {rVec c} N" else s!"ok {rVec c} {rMat ys}")
   | ["acc", p, w, x] => do
     let p ← pProg? (K := K) p; let w ← pVec? (K := K) w; let x ← pVec? (K := K) x
     let r := accumulateRepeated (V := Vec K) (fun v => ⟨runProg p v.data⟩) w ⟨x⟩
